@@ -81,13 +81,18 @@ func main() {
 
 			var wg sync.WaitGroup
 			wg.Add(2)
+			// When one side is done, close the other one: that ends the peer's stream
+			// once everything read so far has been forwarded, and unblocks the copy
+			// running in the opposite direction.
 			go func() {
 				defer wg.Done()
 				io.Copy(backendConn, conn)
+				backendConn.Close()
 			}()
 			go func() {
 				defer wg.Done()
 				io.Copy(conn, backendConn)
+				conn.Close()
 			}()
 			wg.Wait()
 		}()
